@@ -29,6 +29,18 @@ impl PartialEqSpecImpl for AssetInfo {
     open spec fn obeys_eq_spec() -> bool { true }
     open spec fn eq_spec(&self, o: &AssetInfo) -> bool { self.same(o) }
 }
+// derived PartialEq of AssetInfoRaw (cw_serde): same variant and equal payload
+impl PartialEq for AssetInfoRaw { #[verifier::external_body] fn eq(&self, o: &AssetInfoRaw) -> (r: bool) { unimplemented!() } }
+impl PartialEqSpecImpl for AssetInfoRaw {
+    open spec fn obeys_eq_spec() -> bool { true }
+    open spec fn eq_spec(&self, o: &AssetInfoRaw) -> bool {
+        match (*self, *o) {
+            (AssetInfoRaw::NativeToken { denom: a }, AssetInfoRaw::NativeToken { denom: b }) => a@ == b@,
+            (AssetInfoRaw::Token { contract_addr: a }, AssetInfoRaw::Token { contract_addr: b }) => a.0@ == b.0@,
+            _ => false,
+        }
+    }
+}
 // amount of the FIRST coin of denom d among the attached funds, 0 when absent
 pub open spec fn attached(funds: Seq<Coin>, d: Seq<char>) -> nat decreases funds.len() {
     if funds.len() == 0 { 0 } else if funds[0].denom@ == d { funds[0].amount.0 as nat } else { attached(funds.drop_first(), d) }
